@@ -9,6 +9,8 @@ Local Open Scope string_scope.
 (** lookupUnlocked keeps a bucket when its mask is strictly longer than the
     best so far, starting from -1; the candidate of a bucket is its head *)
 Definition src_lpm_compare : string := "ones > best".
+(** equivalent alternative (no two buckets of equal length match one address) *)
+Definition src_lpm_compare_ge : string := "ones >= best".
 Definition src_lpm_initial_best : string := "-1".
 (** sortRoutes: ascending metric *)
 Definition src_sort_less : string := "[i].Metric < [j].Metric".
